@@ -25,6 +25,7 @@ type Case struct {
 	Nontrivial bool        `json:"nontrivial"`
 	Kind       string      `json:"kind,omitempty"` // generator class (for the distribution)
 	HypOK      bool        `json:"hyp_ok"`         // case meets the theorem's hypotheses
+	HypLine    string      `json:"hyp_line,omitempty"` // model line that evaluates the theorem's hypotheses on this case (prints 1/0)
 	Replay     interface{} `json:"replay,omitempty"`
 }
 
